@@ -155,6 +155,27 @@ def w3(run):
                         if a[0] == "param" and b == ("const", "int", 13):
                             cr_filtered = True
     run.record("legend_grammar", gname)
+    # the text preparation that runs before the grammar, evaluated as a model on every witness
+    from ..strpipe import StrEval
+    entry_item = [it for it in mod["items"] if it.get("k") == "fn" and it.get("name") == entry and not it.get("test")]
+    sink_names = {n.split("::")[-1] for n in seen if n != pcl}
+    prep = None
+    if entry_item:
+        try:
+            StrEval(sink_names).run_fn(entry_item[0], "x")
+            prep = lambda doc: StrEval(sink_names).run_fn(entry_item[0], doc)[1]
+        except Unknown as ex:
+            run.bad("C17.W3", "legend-preparation-uninterpretable", gfile,
+                    "the text preparation in %s uses a construct outside the modelled subset (%s); its effect on line ends cannot be decided" % (entry, ex))
+            return
+    if prep is None:
+        run.missing("C17.W3", "source of util::parser::parse_css_legend")
+        return
+    # cross-check of the two views of the same code: MIR says CR is filtered <=> the model drops CR
+    model_drops_cr = "\r" not in prep("a\r\nb\rc")
+    if cr_filtered and not model_drops_cr:
+        run.bad("C17.W3", "legend-preparation-disagrees", gfile, "MIR shows a CR filter on the legend input but the source model keeps CR")
+    cr_filtered = model_drops_cr
     run.record("legend_input_cr_filtered", cr_filtered)
     try:
         canon_ok, _, canon = g.parse(gname, witness("", ("", ""), "", "\n"))
@@ -176,7 +197,7 @@ def w3(run):
                 for fin in ["", "\n", "  ", " \n\n"]:
                     for nl in ("\n", "\r\n"):
                         doc = witness(ht, (s0, s1), fin, nl)
-                        eff = doc.replace("\r", "") if cr_filtered else doc
+                        eff = prep(doc)
                         n_w += 1
                         try:
                             ok, _, out = g.parse(gname, eff)
@@ -199,12 +220,29 @@ def w3(run):
                 "legend with blanks before a line end parses differently: %r -> %r (expected the 3 entries); %d witnesses fail" % (doc, got, len(fails_blank)))
     else:
         run.ok("C17.W3", "trailing-blank legend witnesses yield the canonical entries", gfile, "%d witness documents" % n_w)
-    if not cr_filtered:
-        # CR must not survive inside declarations either
-        try:
-            ok, _, out = g.parse(gname, "# Legend:\r\na = {\r\n fill:red;\r\n}\r\n")
-            ok2, _, out2 = g.parse(gname, "# Legend:\na = {\n fill:red;\n}\n")
-            if out != out2:
-                run.bad("C17.W3", "legend-cr-in-declarations", gfile, "multi-line declarations keep CR characters: %r vs %r" % (out, out2))
-        except GrammarError:
-            pass
+    # declarations that span several lines: neither CR nor the blanks before a line end may survive in the css
+    def block_doc(b, nl):
+        return "# Legend:" + nl + "a = {" + b + nl + " fill:red;" + b + nl + " stroke : blue;" + b + nl + "}" + b + nl + "b = {x:y}" + nl
+    try:
+        ok0, _, ref = g.parse(gname, prep(block_doc("", "\n")))
+        if not ok0 or len(ref) != 2:
+            run.bad("C17.W3", "legend-multiline-canonical", gfile, "a legend entry spanning several lines does not parse (%r)" % (ref,))
+        else:
+            nb = 0
+            for b in ("", " ", "   ", "\t", " \t"):
+                for nl in ("\n", "\r\n"):
+                    nb += 1
+                    ok, _, out = g.parse(gname, prep(block_doc(b, nl)))
+                    if out != ref:
+                        kind = "legend-cr-in-declarations" if nl == "\r\n" and not b else "legend-blanks-in-declarations"
+                        run.bad("C17.W3", kind, gfile,
+                                "multi-line declarations keep %s: %r gives %r, the clean LF legend gives %r" % (
+                                    "CR characters" if kind.endswith("cr-in-declarations") else "the blanks before a line end", block_doc(b, nl), out, ref))
+                        break
+                else:
+                    continue
+                break
+            else:
+                run.ok("C17.W3", "multi-line declarations are the same under LF/CRLF and trailing blanks", gfile, "%d witness documents" % nb)
+    except GrammarError as ex:
+        run.bad("C17.W3", "grammar-uninterpretable", gfile, "legend grammar not interpretable: %s" % ex)
